@@ -718,7 +718,7 @@ pub fn run(ctx: &Ctx) -> ! {
     // again (bounded caches, thread-local tables, counters that change behaviour after N calls, amortised rebuilds) ----
     let mut long_history: (Vec<SessionSpec>, Vec<Vec<(usize, usize)>>) = (vec![], vec![]);
     {
-        let n_inputs = if ctx.quick() { 300 } else { 1100 };
+        let n_inputs = if ctx.quick() { 300 } else { 600 };
         let cands: Vec<usize> = (0..items.len())
             .filter(|i| items[*i].case.tags.iter().any(|t| t == "lifted") && items[*i].events[0].value.get("vin").and_then(|v| v.as_str()).is_some())
             .filter(|i| g.index.get(&(*i, 0)).and_then(|ix| g.results[*ix].as_ref().ok()).is_some_and(|r| r.worlds.first().is_some_and(|w| !w.obs.iter().any(|o| o.outcome.starts_with("NOPROGRAM")))))
